@@ -27,6 +27,7 @@ class TapMixin:
         self._sentinel_next = False
         self._pending_sentinel = None
         self.tap_enabled = True
+        self.quiet = False      # set around the creation of harness filler events that must not be recorded
 
     def tick(self):
         self.G += 1
@@ -99,7 +100,7 @@ class TapMixin:
             self.log.append(('W', self.tick(), lb, wc.t, self.now))
 
     def schedule(self, event, priority=NORMAL, delay=0):
-        if self.tap_enabled:
+        if self.tap_enabled and not self.quiet:
             kind = self.kind_of(event)
             now = self.now
             if kind == 'until':
